@@ -44,7 +44,7 @@ func runC11(c *eng.Ctx) {
 	if fn := c.Fn("server.(*partition).becomeLeader"); fn != nil {
 		notCursors := eng.CmpEdges(fn, eng.LoadNamed("Stream", nil), eng.AnyV, eng.NE)
 		for _, r := range eng.Returns(fn) {
-			if len(r.Results) == 1 && eng.NilConst(r.Results[0]) {
+			if len(eng.RetVals(r)) == 1 && eng.NilConst(eng.RetVals(r)[0]) {
 				q := &eng.PathQuery{Fn: fn, FromEntry: true, Target: func(x ssa.Instruction) bool { return x == r }, CutEdges: notCursors, CutInstr: eng.IsCallTo("server.cursorManager.BecomePartitionLeader")}
 				w := q.Find()
 				c.Check(w == nil && len(notCursors) > 0, "new cursors-partition leader purges the cache", c.Pos(r), "every successful return passes BecomePartitionLeader() when p.Stream == cursorsStream", "becomeLeader can succeed for a cursors partition without purging the cursor cache (path "+w.String()+")")
@@ -233,6 +233,8 @@ func runC11(c *eng.Ctx) {
 
 	c.Rule("R08.6", "K2")
 	ruleReverseReaderSurvivesReplacement(c)
+	c.Rule("R11.10", "K5")
+	ruleReverseReaderOffsetMeansOneThing(c)
 
 	// ---- from the repaired defects F63, F64 and known finding K13
 	c.Rule("R04.2", "K1")
